@@ -199,3 +199,92 @@ def run(ctx):
                 ctx.ob("R06.2", "%s|%s|%s" % (which, ty, m), ok, fn.loc(stmts[0]) if stmts else fn.loc(),
                        "%s (filled from a parameter at %s) is %sread by the %s arm of %s()" % (m, site, "" if ok else "NOT ", ty, which))
     ctx.floor("R06.2", "variant-member obligations", n2, 40)
+    _keyword_round_trip(ctx)
+
+
+TYPE_KW = ["bool", "char", "wchar_t", "char8_t", "char16_t", "char32_t", "int", "float", "double", "void", "auto"]
+MOD_KW = ["short", "long", "unsigned", "signed"]
+
+
+def _keyword_round_trip(ctx):
+    """R06.4: keyword -> (type, flags) in the grammar and (type, flags) -> keyword in the printers agree
+    with the keyword's own name; the declarator printers emit their own token."""
+    import re
+    from .. import grammar as GR
+    from . import gates as G
+    db = ctx.db
+    ctx.rule("R06.4", "fundamental-type keywords map to the enumerator of their own name in the grammar and back to the same keyword in CPPSimpleType::output; reference/const/pointer printers emit `&&` iff rvalue, `const`, `*`")
+    g = GR.Grammar(db.meta["grammar"])
+    n = 0
+    for nt in ("simple_int_type", "simple_float_type", "simple_void_type", "simple_auto_type"):
+        for a in g.rules.get(nt, []):
+            syms = [x for x in a.syms if x != "@action"]
+            kws = [x[3:].lower() for x in syms if x.startswith("KW_")]
+            if not kws:
+                continue
+            act = a.action or ""
+            types = re.findall(r"CPPSimpleType::T_(\w+)", act)
+            flags = re.findall(r"CPPSimpleType::F_(\w+)", act)
+            site = "src/cppparser/cppBison.yxx:%d" % a.line
+            inst = "grammar|%s|%s" % (nt, "_".join(syms))
+            if len(syms) == len(kws) and "new CPPSimpleType" in act:
+                n += 1
+                want_t = [k for k in kws if k in TYPE_KW] or ["int"]
+                want_f = [k for k in kws if k in MOD_KW]
+                ctx.ob("R06.4", inst, types == want_t[-1:] and sorted(flags) == sorted(want_f), site,
+                       "`%s` builds CPPSimpleType(T_%s%s); expected T_%s%s" % (" ".join(kws), ",".join(types), "".join(", F_" + f for f in flags), want_t[-1], "".join(", F_" + f for f in want_f)))
+            elif len(kws) == 1 and kws[0] in MOD_KW and len(syms) == 2:
+                n += 1
+                want = {kws[0]} | ({"longlong"} if kws[0] == "long" else set())
+                ctx.ob("R06.4", inst, set(flags) == want, site, "`%s <int type>` sets %s; expected %s" % (kws[0], sorted(set(flags)), sorted(want)))
+    ctx.floor("R06.4", "fundamental-type alternatives in the grammar", n, 18)
+    # printer
+    fn = db.fn("CPPSimpleType::output")
+    sw = [x for x in fn.walk() if x.get("k") == "switch" and (field_of(x["c"]) or "").endswith("CPPSimpleType::_type")]
+    if not sw:
+        ctx.broken("CPPSimpleType::output: switch on _type not found")
+    en = db.enum("CPPSimpleType::Type")
+    names = {c["v"]: c["n"] for c in en["consts"]}
+    special = {"T_nullptr": "decltype(nullptr)", "T_va_list": "__builtin_va_list"}
+    m = 0
+    for labs, stmts in switch_arms(sw[0]):
+        lits = [x.get("v", "") for st in stmts for x in walk(st) if x.get("k") == "str"]
+        for v in labs:
+            nm = names.get(v)
+            if nm is None:
+                continue
+            kw = nm[2:]
+            if kw in TYPE_KW or nm in special:
+                m += 1
+                want = special.get(nm, kw)
+                ctx.ob("R06.4", "printer|%s" % nm, lits == [want], fn.loc(stmts[0]) if stmts else fn.loc(), "case %s prints %s (expected \"%s\")" % (nm, lits, want))
+    ctx.floor("R06.4", "type keywords printed", m, 12)
+    for x in fn.walk():
+        if x.get("k") != "if":
+            continue
+        atom, pos = cond_atom(fn, x["c"])
+        en_ = [y for y in walk(x["c"]) if y.get("k") == "ref" and y.get("dk") == "enumc" and y["n"].split("::")[-1].startswith("F_")]
+        if len(en_) != 1 or any(y.get("k") == "ref" and y["n"].endswith("T_int") for y in walk(x["c"])):
+            continue
+        lits = [y.get("v", "") for y in walk(x["then"]) if y.get("k") == "str"]
+        flag = en_[0]["n"].split("::")[-1][2:]
+        want = {"longlong": "long long "}.get(flag, flag + " ")
+        ctx.ob("R06.4", "printer|F_%s" % flag, lits[:1] == [want], fn.loc(x), "flag F_%s prints %s (expected \"%s\")" % (flag, lits[:1], want))
+    # declarator printers
+    fr = db.fn("CPPReferenceType::output_instance")
+    ok = False
+    for x in fr.walk():
+        if x.get("k") == "cond":
+            c = G.cmp_atom(peel(x["c"]))
+            if c and c[0] == "==" and (field_of(c[1]) or "").endswith("_value_category") and c[2] is not None and c[2].get("n", "").endswith("VC_rvalue"):
+                t = [y.get("v") for y in walk(x["x"]) if y.get("k") == "str"]
+                f = [y.get("v") for y in walk(x["y"]) if y.get("k") == "str"]
+                ok = t == ["&&"] and f == ["&"]
+        if x.get("k") == "if":
+            pass
+    ctx.ob("R06.4", "printer|reference", ok, fr.loc(), "a reference prints `&&` exactly when its value category is VC_rvalue, else `&`")
+    for cls, tok, inner in (("CPPConstType", "const", "_wrapped_around"), ("CPPPointerType", "*", "_pointing_at")):
+        f = db.fn(cls + "::output_instance")
+        lits = [y.get("v", "") for y in f.walk() if y.get("k") == "str"]
+        deleg = any(c.get("k") == "call" and callee_short(c) == "output_instance" and (field_of(c.get("this")) or "").endswith(inner) for c in f.walk())
+        ctx.ob("R06.4", "printer|%s" % cls, any(tok in l for l in lits) and deleg, f.loc(), "%s::output_instance emits `%s` and delegates to %s" % (cls, tok, inner))
